@@ -425,6 +425,11 @@ func c11A1(r *core.R) {
 			if len(ev.call.xs) == 2 && ev.call.xs[1].k == "nil" {
 				continue // append(list, nil...): nothing is appended (the elements are structs, so nil is an empty slice)
 			}
+			if a1 := ev.call.xs1(); a1 != nil && a1.k == "index" && a1.xs[0].k == "call" && strings.HasPrefix(a1.xs[0].name, "make@") && !a1.xs[0].mentions(m.childT.key()) {
+				if sl, ok := a1.xs[0].typ.(*types.Slice); ok && namedPath(sl.Elem()) == core.ModulePath+".Updates" {
+					continue // append(fresh, results[i]...): the updates already stored for a parent are copied, none is produced
+				}
+			}
 			nApp++
 			pos = ev.node.Pos()
 			xs := m.visibleIdx(p.st, ev.nas)
